@@ -161,6 +161,15 @@ def check(rep, tier, seed):
             for s in last.get("sf") or []:
                 argv += ["-sf", "ROOT/" + s]
             base = scratch.new("k")
+            if scn.get("long_root"):
+                # a file system with a shorter name limit cannot hold that folder: the scenario runs under the ordinary name then
+                try:
+                    os.mkdir(os.path.join(base, scn["long_root"]))
+                    os.rmdir(os.path.join(base, scn["long_root"]))
+                except OSError:
+                    rep.count("long_root_unavailable")
+                    scn.pop("long_root")
+                    full.pop("long_root", None)
             rname = scn.get("long_root") or "r"
             work, rc, info, tail = run_kill(root, base, "count", {"kind": "count"}, argv, rname)
             if info is None:
